@@ -14,7 +14,7 @@ LEVEL = "exploration"
 DESIGN_REF = "DESIGN.md §3 C09"
 RULE = (
     "(a) exhaustive table: 1 or 2 links between one pair (a,b) or on one vertex (a,a), each of 6 link classes x both "
-    "orientations, x 5 filters; (b) Hypothesis multigraphs (<= 8 vertices, <= 14 links) x edge filters as truth "
+    "orientations, x 7 filters (two of them falsy callable objects); (b) Hypothesis multigraphs (<= 8 vertices, <= 14 links) x edge filters as truth "
     "tables.  For EVERY ordered pair incl. a is b x direction flag x 3 unknown-handling modes: find_links equals "
     "the reference set (NotImplementedError exactly when the reference raises); whenever both calls return its size "
     "equals neighbors(a, FORWARD|ANY, same handling, same filter).count(b); then unlink(a,b) on a generated pair: "
@@ -45,14 +45,15 @@ def budget(tier):
 def strategy(tier):
     return st.builds(
         lambda g, f, a, b: {"g": g, "f": f, "unlink": [a % g["nv"], b % g["nv"]]},
-        graphs.graph_descs(),
+        st.one_of(graphs.graph_descs(), graphs.graph_descs(), graphs.graph_descs(), graphs.eq_graph_descs()),
         graphs.edge_filter_specs,
         st.integers(0, 7),
         st.integers(0, 7),
     )
 
 
-_FILTERS = [None, {"ft": "edge", "mask": 0xFFFF}, {"ft": "edge", "mask": 0}, {"ft": "edge", "mask": 0b01}, {"ft": "edge", "mask": 0b10}]
+_FILTERS = [None, {"ft": "edge", "mask": 0xFFFF}, {"ft": "edge", "mask": 0}, {"ft": "edge", "mask": 0b01}, {"ft": "edge", "mask": 0b10},
+            {"ft": "edge", "mask": 0, "falsy": True}, {"ft": "edge", "mask": 0b10, "falsy": True}]
 
 
 def enumerate_cases(tier, shard=0, nshards=1):
@@ -71,7 +72,7 @@ def enumerate_cases(tier, shard=0, nshards=1):
 
     return gen(), (
         f"all {len(configs) * len(_FILTERS)} rows: 1-2 links between one pair / on one vertex, 6 classes x both "
-        f"orientations, x 5 edge filters (plus two bystander links whose answers must survive the unlink)"
+        f"orientations, x 7 edge filters (plus two bystander links whose answers must survive the unlink)"
     )
 
 
@@ -99,9 +100,12 @@ def check_case(case):
     vi = {id(v): i for i, v in enumerate(vs)}
     li = {id(l): i for i, l in enumerate(ls)}
     f = graphs.make_filter(case["f"])
-    ff1 = graphs.real_filter1(f, li)
+    fz = graphs.is_falsy(case["f"])
+    ff1 = graphs.real_filter1(f, li, falsy=fz)
     ff2 = None if f is None else (lambda e, v: f(li[id(e)]))
     classes = set()
+    if fz:
+        classes.add("falsy-callable-filter")
     nt = False
     n = len(vs)
     table = fl_table(vs, ls, ff1, li)
@@ -144,6 +148,10 @@ def check_case(case):
                         continue
                     cnt = sum(1 for x in nb if x is vs[b])
                     require(len(got) == cnt, "count-vs-neighbors", f"{where}: {len(got)} links but v{b} occurs {cnt}x in neighbors(v{a})")
+    if case["g"].get("eq"):
+        # unlink() relies on list membership (==): no promise for value-equal vertices
+        classes.add("value-equal-vertices")
+        return dict(nt=nt, classes=sorted(classes))
     # metamorphic: unlink a pair
     a, b = case["unlink"]
     try:
